@@ -10,7 +10,7 @@ from harness.drivers import c03 as drv
 def run(tier: str) -> int:
     chk = Check("C03", tier)
     scs, n_emitted = c02.scenarios(tier, chk, 5000 if tier == "quick" else 50000)
-    hows = ["built", "read", "rated", "from_osu", "built"]
+    hows = ["built", "read", "rated", "from_osu", "edit_rewrite", "unsorted_bpms", "built"]
     scns = []
     for i, s in enumerate(scs):
         if not s["objs"]:
